@@ -39,6 +39,9 @@ const MIN: usize = 16 * 1024 * 8;
 enum CredOp {
   Set(u8, bool),
   Update(Vec<(u8, bool)>),
+  /// `update(|l| ..)` whose closure does not stop at a refused write: it notes each `set_entry` result, goes on with
+  /// the next write and returns Ok (a tolerant batch). Every refused write must leave the list as it was.
+  UpdateTolerant(Vec<(u8, bool)>),
 }
 
 fn three() -> usize {
@@ -922,7 +925,41 @@ impl Model for CredModel {
   fn init_states(&self) -> Vec<CredState> {
     (0..2u8).filter_map(|p| self.init_state(p)).collect()
   }
-  fn actions(&self, _s: &CredState, out: &mut Vec<CredOp>) {
+  fn actions(&self, s: &CredState, out: &mut Vec<CredOp>) {
+    let first = out.len();
+    self.strict_actions(out);
+    // the tolerant closure differs from the strict one only where some write of the batch must be refused in THIS state
+    let len = s.model.len() * 8;
+    let tolerant: Vec<CredOp> = out[first..]
+      .iter()
+      .filter_map(|op| match op {
+        CredOp::Update(b) => {
+          let mut m = s.model.clone();
+          let mut refused = false;
+          for (id, v) in b {
+            let i = cidx(*id, len);
+            if i >= len || (s.purpose == 0 && !*v && bit(&m, i)) {
+              refused = true;
+            } else {
+              set_bit(&mut m, i, *v);
+            }
+          }
+          refused.then(|| CredOp::UpdateTolerant(b.clone()))
+        }
+        _ => None,
+      })
+      .collect();
+    out.extend(tolerant);
+  }
+  fn next_state(&self, s: &CredState, op: CredOp) -> Option<CredState> {
+    self.next_state_impl(s, op)
+  }
+  fn properties(&self) -> Vec<Property<Self>> {
+    vec![Property::always("violations are collected on the side", |_, _| true)]
+  }
+}
+impl CredModel {
+  fn strict_actions(&self, out: &mut Vec<CredOp>) {
     let writes: Vec<(u8, bool)> = (0..self.nidx as u8).flat_map(|id| [(id, true), (id, false)]).collect();
     for w in &writes {
       out.push(CredOp::Set(w.0, w.1));
@@ -962,7 +999,7 @@ impl Model for CredModel {
       }
     }
   }
-  fn next_state(&self, s: &CredState, op: CredOp) -> Option<CredState> {
+  fn next_state_impl(&self, s: &CredState, op: CredOp) -> Option<CredState> {
     self.col.eval1();
     let len = s.model.len() * 8;
     let mut n = s.clone();
@@ -973,22 +1010,33 @@ impl Model for CredModel {
     // failing one is not stated: both "nothing" and "the prefix" are accepted and followed.
     let writes: Vec<(u8, bool)> = match &op {
       CredOp::Set(id, v) => vec![(*id, *v)],
-      CredOp::Update(b) => b.clone(),
+      CredOp::Update(b) | CredOp::UpdateTolerant(b) => b.clone(),
     };
+    let tolerant = matches!(op, CredOp::UpdateTolerant(_));
     let mut model = s.model.clone();
     let mut fail: Option<&'static str> = None;
+    // tolerant batch: which writes must be refused (each refused write is skipped, the batch goes on)
+    let mut must_refuse: Vec<Option<&'static str>> = Vec::new();
     for (id, v) in &writes {
       let i = cidx(*id, len);
-      if i >= len {
-        fail = Some("out-of-range");
-        break;
-      }
-      if s.purpose == 0 && !*v && bit(&model, i) {
-        fail = Some("unreversible");
+      let why = if i >= len {
+        Some("out-of-range")
+      } else if s.purpose == 0 && !*v && bit(&model, i) {
+        Some("unreversible")
+      } else {
+        None
+      };
+      must_refuse.push(why);
+      if let Some(w) = why {
+        if tolerant {
+          continue;
+        }
+        fail = Some(w);
         break;
       }
       set_bit(&mut model, i, *v);
     }
+    let mut refused: Vec<Option<String>> = Vec::new();
     let mut target = subject_credential(None);
     let (r, opname) = match &op {
       CredOp::Set(id, v) => {
@@ -1007,8 +1055,60 @@ impl Model for CredModel {
         .map(|r| r.map(|_| None)),
         "update(set_entry)",
       ),
+      CredOp::UpdateTolerant(b) => (
+        guard(|| {
+          let mut seen = Vec::new();
+          let r = n.cred.update(|l| {
+            for (id, v) in b {
+              seen.push(l.set_entry(cidx(*id, len), *v).err().map(|e| e.to_string()));
+            }
+            Ok(())
+          });
+          (r, seen)
+        })
+        .map(|(r, seen)| {
+          refused = seen;
+          r.map(|_| None)
+        }),
+        "update(tolerant-closure)",
+      ),
     };
     n.fp = cred_fp(&n.cred);
+    if tolerant {
+      if let Ok(Err(e)) = &r {
+        self.col.violation(&format!("StatusList2021Credential::{opname}|update-failed-although-the-closure-returned-Ok"), &format!("{e} after {:?}", n.hist), &case);
+        return None;
+      }
+      if r.is_ok() {
+        for (k, (want, got)) in must_refuse.iter().zip(refused.iter()).enumerate() {
+          let class = match (want, got) {
+            (Some("unreversible"), None) => "clearing-a-set-revocation-entry-returned-Ok",
+            (Some(_), None) => "out-of-range-write-returned-Ok",
+            (None, Some(_)) => "permitted-write-refused",
+            _ => continue,
+          };
+          self.col.violation(&format!("MutStatusList::set_entry|{class}"), &format!("write #{k} of the last batch of {:?}: {got:?}", n.hist), &case);
+          return None;
+        }
+        // a refused write must leave nothing behind: a revocation entry that was set before the batch must still be set
+        // (named here); every other entry is compared with the model, in which refused writes were skipped, below
+        if s.purpose == 0 {
+          if let (Ok(real), Ok(before)) = (list_of_json(&n.fp), list_from_bytes(&s.model)) {
+            for i in 0..len {
+              if before.get(i).ok() == Some(true) && real.get(i).ok() != Some(true) {
+                self.col.violation(
+                  &format!("StatusList2021Credential::{opname}|revocation-cleared"),
+                  &format!("entry {i} was set, the write clearing it was refused with {:?}, update returned Ok and the entry now reads clear; after {:?}", refused, n.hist),
+                  &case,
+                );
+                return None;
+              }
+            }
+          }
+        }
+        self.outcome(&format!("cred:tolerant-batch refused={}", must_refuse.iter().filter(|w| w.is_some()).count()));
+      }
+    }
     match r {
       Err(p) => {
         self.col.violation(&format!("StatusList2021Credential::{opname}|{}", p.key()), &p.msg, &case);
@@ -1091,9 +1191,6 @@ impl Model for CredModel {
     }
     self.col.sample(&case);
     Some(n)
-  }
-  fn properties(&self) -> Vec<Property<Self>> {
-    vec![Property::always("violations are collected on the side", |_, _| true)]
   }
 }
 
